@@ -7,9 +7,13 @@ cd /repo || exit 9
 if ! git diff --quiet; then echo "repo dirty"; exit 9; fi
 git apply "$patch" || { echo "patch does not apply"; exit 9; }
 cd /verif
+cp evidence/$id.json /tmp/tryseed.$$.ev 2>/dev/null
 python3 check.py "$id" --tier "$tier" > /tmp/tryseed.$$.log 2>&1
 rc=$?
 grep -v "^\[build\]\|^\[driver\]\|^KNOWN-FINDING" /tmp/tryseed.$$.log | cut -c1-260 | tail -6
 echo "EXIT $rc"
+# the evidence of a seeded run is not evidence about the unchanged tree: put the previous file back
+[ -f /tmp/tryseed.$$.ev ] && mv /tmp/tryseed.$$.ev evidence/$id.json
+rm -rf evidence/replays/$id/*.json 2>/dev/null
 cd /repo && git checkout -- . && git clean -fdq -- wow_world_messages/tests wow_login_messages/tests wow_world_base/tests 2>/dev/null
 rm -f /tmp/tryseed.$$.log
